@@ -34,6 +34,7 @@ M = [
  ('`spawn` of something that is not a function', 'C05', '`fn main() { spawn undefined_name(); }`: nil pointer dereference in Analyzer.callExpression'),
  ('whether a `loop` terminates is decided by its own body', 'C03', '`fn g() { throw("x"); } fn f() -> int { loop { return 1; } }` was rejected with "Mismatched types" because an earlier diverging expression left CurrentLoopIsTerminated set'),
  ('evaluates the arguments of a closure call in the caller', 'C02', '`fn apply(f: fn(x: int) -> int, v: int) -> int { f(f(v)) }` called with a closure literal: interpreter panic in getVar ("Variable \'f\' not found")'),
+ ('import cycle check terminates', 'C05', 'modules main -> a -> b -> a (a cycle that does not contain main): importGraphIsCyclicInner recursed forever, "goroutine stack exceeds 1000000000-byte limit" killed the host'),
 ]
 log = subprocess.check_output(['git', '-C', '/repo', 'log', '--reverse', '--format=%h %s']).decode().splitlines()
 fixed, unmatched = [], []
